@@ -181,17 +181,24 @@ impl<'a> TypedGen<'a> {
                 5 if t.chance(1, 6) => {
                     // TIMESTAMP IN (text literals): the same coercion as `ts = 'text'`
                     let x = self.gen(t, Ty::Ts, d);
-                    let n = 1 + t.draw(3);
-                    let list = (0..n).map(|_| if t.chance(1, 4) { self.gen(t, Ty::Ts, d.min(1)) } else { E::Str(t.pick(&TS_LITERALS).to_string()) }).collect();
+                    // (one list in six is long - 16 to 24 literals: a list handled as a set would show here)
+                    let long = t.chance(1, 6);
+                    let n = if long { 16 + t.draw(9) } else { 1 + t.draw(3) };
+                    let list = (0..n).map(|_| if !long && t.chance(1, 4) { self.gen(t, Ty::Ts, d.min(1)) } else { E::Str(t.pick(&TS_LITERALS).to_string()) }).collect();
                     E::In { not: t.chance(1, 2), x: Box::new(x), list }
                 }
                 5 => {
                     let ety = *t.pick(&[Ty::Int, Ty::Int, Ty::Text, Ty::Real]);
-                    let n = 1 + t.draw(4);
+                    // (one list in ten is long and made of literals only; one of those in three carries literals of another type)
+                    let long = t.chance(1, 10);
+                    let n = if long { 16 + t.draw(9) } else { 1 + t.draw(4) };
                     let x = self.gen(t, ety, d);
+                    let other = if long && t.chance(1, 3) { Some(if ety == Ty::Text { Ty::Int } else { Ty::Text }) } else { None };
                     let list = (0..n)
                         .map(|_| {
-                            if self.cfg.nulls && t.chance(1, 8) {
+                            if long {
+                                self.literal(t, other.unwrap_or(ety))
+                            } else if self.cfg.nulls && t.chance(1, 8) {
                                 E::Null
                             } else {
                                 self.gen(t, ety, d.min(1))
